@@ -111,6 +111,7 @@ type Exec struct {
 	curCall  *ssa.CallCommon
 	entryEnv *Env
 	lockIDs  map[string]int
+	fnIDs    map[string]bool // identities of function values used in this script (pairwise distinct)
 	curArgs  []Val // arguments of the call being executed
 	curReach Term // reach condition of the instruction being executed: path facts are assumed under it
 	curBlock *ssa.BasicBlock
@@ -426,8 +427,17 @@ func (x *Exec) val(fr *Frame, v ssa.Value) Val {
 }
 
 func (x *Exec) funcID(f *ssa.Function) Term {
-	name := "fn_" + sanitize(funcKey(f))
+	return x.funcIDByKey(funcKey(f))
+}
+
+// funcIDByKey: the identity of a function value (closures and bound methods are identified by their code)
+func (x *Exec) funcIDByKey(key string) Term {
+	name := "fn_" + sanitize(key)
 	x.sc.declConst(name, "Int")
+	if x.fnIDs == nil {
+		x.fnIDs = map[string]bool{}
+	}
+	x.fnIDs[name] = true
 	return name
 }
 
@@ -754,6 +764,22 @@ func (x *Exec) runBlock(fr *Frame, b *ssa.BasicBlock, back map[[2]int]bool) {
 			for _, r := range t.Results {
 				vs = append(vs, x.val(fr, r))
 			}
+			// what is proved (and then assumed) at a return site is of no use after it: the assumed goals are
+			// moved into the later obligations of this return and blanked in the common prefix
+			oblStart := len(x.sc.obls)
+			if fr.isTop {
+				defer func() {
+					var earlier []string
+					for _, o := range x.sc.obls[oblStart:] {
+						if o.Cover || o.goalIdx <= 0 || o.goalIdx >= len(x.sc.asserts) {
+							continue
+						}
+						o.Extras = append(append([]string{}, earlier...), o.Extras...)
+						earlier = append(earlier, x.sc.asserts[o.goalIdx])
+						x.sc.asserts[o.goalIdx] = "true"
+					}
+				}()
+			}
 			if fr.isTop && x.fc != nil && len(x.fc.Anchors) > 0 {
 				x.returnAnchors(fr, b, t, vs, st, reach)
 			}
@@ -817,6 +843,7 @@ func (x *Exec) oblige(kind, label string, goal Term, pos token.Pos, text string)
 	o := &Obligation{Name: name, Func: x.fnKey, Kind: kind, Label: label, Goal: goal, Cut: len(x.sc.asserts), Pos: x.posStr(pos), Text: text}
 	x.sc.obls = append(x.sc.obls, o)
 	// assume it afterwards (assert-then-assume)
+	o.goalIdx = len(x.sc.asserts)
 	x.sc.assert(goal)
 	return o
 }
@@ -924,6 +951,46 @@ func (x *Exec) postsAtReturn(fr *Frame, r *ssa.Return, rets []Val, st *State, re
 	for i, en := range fc.Ensures {
 		t := x.trBool(en.Expr, penv)
 		x.oblige("post", labelOr(en.Label, i)+suffix, implies(reach, t), pos, en.Text)
+	}
+	if x.against {
+		return
+	}
+	// `implements T when C`: under C this function is what callers of T run, so T's postconditions must hold here
+	for _, im := range fc.Implements {
+		tc := x.eng.cs.Funcs[im.Target]
+		if tc == nil {
+			x.fail("implements: no contract %s", im.Target)
+		}
+		ienv := &Env{vars: map[string]Val{}, cur: st, old: x.old, pkg: fn.Pkg.Pkg, x: x, freshLo: "allocBase0"}
+		for n, v := range penv.vars {
+			ienv.vars[n] = v
+		}
+		// bind the target's names: self = receiver, parameters and results by position
+		if len(fn.Params) > 0 {
+			ienv.vars["self"] = x.entryEnv.vars[fn.Params[0].Name()]
+		}
+		if sig, _ := x.eng.signatureOf(tc); sig != nil {
+			for i := 0; i < sig.Params().Len() && i+1 < len(fn.Params); i++ {
+				if n := sig.Params().At(i).Name(); n != "" && n != "_" {
+					ienv.vars[n] = x.entryEnv.vars[fn.Params[i+1].Name()]
+				}
+			}
+			for i := 0; i < sig.Results().Len() && i < len(rets); i++ {
+				if n := sig.Results().At(i).Name(); n != "" && n != "_" {
+					ienv.vars[n] = rets[i]
+				}
+			}
+		}
+		for i, n := range tc.Params {
+			if i < len(fn.Params) {
+				ienv.vars[n] = x.entryEnv.vars[fn.Params[i].Name()]
+			}
+		}
+		when := x.trBool(im.When.Expr, &Env{vars: x.entryEnv.vars, cur: x.old, old: x.old, pkg: fn.Pkg.Pkg, x: x, freshLo: "allocBase0"})
+		for i, en := range tc.Ensures {
+			t := x.trBool(en.Expr, ienv)
+			x.oblige("impl", shortCallee(im.Target)+":"+labelOr(en.Label, i)+suffix, implies(reach, implies(when, t)), pos, "when "+im.When.Text+": "+en.Text)
+		}
 	}
 }
 
